@@ -16,6 +16,21 @@ theorem codec_roundtrip_value (v : Val) (rest : Bytes) (h : Valid v) :
     decBuf (tyOf v) (enc v ++ rest) = (.ok v, rest) :=
   roundtrip_one v rest h
 
+/-- **the encoding of each type is prefix-free and injective**: if two valid values of the same type are written and the
+    resulting byte streams (each followed by anything) coincide, the values are equal and so is what followed — a typed
+    read can never confuse two different writes -/
+theorem enc_prefix_free (v w : Val) (r r' : Bytes) (hv : Valid v) (hw : Valid w) (hty : tyOf v = tyOf w)
+    (h : enc v ++ r = enc w ++ r') : v = w ∧ r = r' := by
+  have h1 := codec_roundtrip_value v r hv
+  have h2 := codec_roundtrip_value w r' hw
+  rw [hty, h, h2] at h1
+  simp only [Prod.mk.injEq] at h1
+  obtain ⟨a, b⟩ := h1
+  cases a
+  exact ⟨rfl, b.symm⟩
+
+theorem enc_injective (v w : Val) (hv : Valid v) (hw : Valid w) (hty : tyOf v = tyOf w) (h : enc v = enc w) : v = w :=
+  (enc_prefix_free v w [] [] hv hw hty (by rw [h])).1
 /-- every valid write happens and appends exactly the encoding -/
 theorem write_appends (v : Val) (buf : Bytes) (h : Valid v) : write v buf = (.ok (), buf ++ enc v) := by
   simp [write, writeOk_of_valid v h]
